@@ -13,7 +13,9 @@ import (
 	"google.golang.org/grpc"
 
 	"verif/harness/ribx"
+	"verif/mc"
 	"verif/report"
+	"verif/rt"
 
 	spb "github.com/openconfig/gribi/v1/proto/service"
 )
@@ -26,11 +28,13 @@ type faulty struct {
 
 	mu        sync.Mutex
 	maxElec   uint64             // highest election id (low word) announced on any stream
+	prevMax   uint64             // the same before the message being handled
 	installed map[string]bool    // keys acknowledged as programmed (idempotent-delete fault)
 	lastGet   []*spb.GetResponse // previous Get result (stale-get fault)
 	hadGet    bool
 	streams   []*modWrap             // open Modify streams (results-broadcast fault)
 	first     *spb.SessionParameters // parameters of the first session that negotiated (mismatched-params fault)
+	primary   *modWrap               // stream of the last winning announcement (flush-on-new-primary fault)
 }
 
 func newFaulty(s *server.Server, kind string) *faulty {
@@ -106,6 +110,30 @@ var faultTable = []struct {
 	{"unannounced-id-programmed", "programs operations stamped with an election id that was never announced", func(tt *compliance.TestSpec) bool {
 		return has(tt, "Election - Unannounced master operations are rejected")
 	}},
+	{"flush-on-new-primary", "drops every entry when another session becomes primary", func(tt *compliance.TestSpec) bool {
+		return has(tt, "Election - Active entries after new master connects")
+	}},
+	{"forward-reference-failed", "answers FAILED to an operation whose references are not installed yet", func(tt *compliance.TestSpec) bool {
+		return has(tt, "Add IPv4 entries that are resolved by NHG and NH, in random order")
+	}},
+	{"implicit-replace-rejected", "answers FAILED to an ADD of a key that is already installed", func(tt *compliance.TestSpec) bool {
+		return has(tt, "Implicit replace NH entry", "Implicit replace NHG entry", "Implicit replace IPv4 entry")
+	}},
+	{"metadata-rejected", "answers FAILED to entries that carry metadata", func(tt *compliance.TestSpec) bool {
+		return has(tt, "Add Metadata for IPv4 entry", "Add IPv6 entry with metadata")
+	}},
+	{"mpls-unsupported", "answers FAILED to every MPLS operation", func(tt *compliance.TestSpec) bool {
+		return has(tt, "MPLS add entry with NH label stack", "MPLS delete entry", "MPLS simple programming entry")
+	}},
+	{"ipv6-unsupported", "answers FAILED to every IPv6 operation", func(tt *compliance.TestSpec) bool {
+		return has(tt, "Add IPv6 entry that can be programmed on the server", "Add IPv6 entry with metadata", "Get for installed IPv6 Entry")
+	}},
+	{"lower-election-id-honoured", "lets a lower election id take the primary role and reports it", func(tt *compliance.TestSpec) bool {
+		return has(tt, "Election - Decrementing election ID is ignored", "Election - Lower election ID from new client")
+	}},
+	{"cross-instance-reference-rejected", "answers FAILED to an entry that references a group of another network instance", func(tt *compliance.TestSpec) bool {
+		return has(tt, "Add IPv4 Entry that references a NHG in a different network instance")
+	}},
 }
 
 func has(tt *compliance.TestSpec, subs ...string) bool {
@@ -170,6 +198,7 @@ func (m *modWrap) Recv() (*spb.ModifyRequest, error) {
 		}
 		f := m.f
 		f.mu.Lock()
+		f.prevMax = f.maxElec
 		if in.ElectionId != nil && in.ElectionId.High == 0 && in.ElectionId.Low > f.maxElec {
 			f.maxElec = in.ElectionId.Low
 		}
@@ -204,6 +233,28 @@ func (m *modWrap) Recv() (*spb.ModifyRequest, error) {
 			if p := in.Params; p != nil && !(p.Redundancy == spb.SessionParameters_SINGLE_PRIMARY && p.Persistence == spb.SessionParameters_PRESERVE) {
 				m.GRIBI_ModifyServer.Send(&spb.ModifyResponse{SessionParamsResult: &spb.SessionParametersResult{Status: spb.SessionParametersResult_OK}})
 				continue
+			}
+		case "flush-on-new-primary":
+			if in.ElectionId != nil && in.Params == nil && len(in.Operation) == 0 {
+				f.mu.Lock()
+				moved := f.primary != nil && f.primary != m && in.ElectionId.Low >= f.maxElec
+				if in.ElectionId.Low >= f.maxElec {
+					f.primary = m
+				}
+				f.mu.Unlock()
+				if moved {
+					f.inner.Flush(context.Background(), &spb.FlushRequest{NetworkInstance: &spb.FlushRequest_All{All: &spb.Empty{}}, Election: &spb.FlushRequest_Override{Override: &spb.Empty{}}})
+				}
+			}
+		case "lower-election-id-honoured":
+			if in.ElectionId != nil && in.Params == nil && len(in.Operation) == 0 && in.ElectionId.Low != 0 {
+				f.mu.Lock()
+				lower := in.ElectionId.High == 0 && in.ElectionId.Low < f.prevMax
+				f.mu.Unlock()
+				if lower {
+					m.GRIBI_ModifyServer.Send(&spb.ModifyResponse{ElectionId: in.ElectionId})
+					continue
+				}
 			}
 		case "zero-election-id-accepted":
 			if in.ElectionId != nil && in.ElectionId.High == 0 && in.ElectionId.Low == 0 && in.Params == nil && len(in.Operation) == 0 {
@@ -250,6 +301,40 @@ func (m *modWrap) Recv() (*spb.ModifyRequest, error) {
 				f.mu.Unlock()
 				if future {
 					m.direct(op.GetId(), spb.AFTResult_RIB_PROGRAMMED)
+					continue
+				}
+			case "forward-reference-failed":
+				if _, _, payload := ribx.Describe(op); payload != nil && op.GetOp() != spb.AFTOperation_DELETE {
+					if cur, err := ribx.Snapshot(f.inner.VerifRIB()); err == nil && !cur.Resolvable(op.GetNetworkInstance(), payload) {
+						m.direct(op.GetId(), spb.AFTResult_FAILED)
+						continue
+					}
+				}
+			case "implicit-replace-rejected":
+				if k, key, _ := ribx.Describe(op); op.GetOp() == spb.AFTOperation_ADD {
+					if cur, err := ribx.Snapshot(f.inner.VerifRIB()); err == nil && cur.Has(op.GetNetworkInstance(), k, key) {
+						m.direct(op.GetId(), spb.AFTResult_FAILED)
+						continue
+					}
+				}
+			case "metadata-rejected":
+				if len(op.GetIpv4().GetIpv4Entry().GetEntryMetadata().GetValue()) > 0 || len(op.GetIpv6().GetIpv6Entry().GetEntryMetadata().GetValue()) > 0 {
+					m.direct(op.GetId(), spb.AFTResult_FAILED)
+					continue
+				}
+			case "mpls-unsupported":
+				if op.GetMpls() != nil {
+					m.direct(op.GetId(), spb.AFTResult_FAILED)
+					continue
+				}
+			case "ipv6-unsupported":
+				if op.GetIpv6() != nil {
+					m.direct(op.GetId(), spb.AFTResult_FAILED)
+					continue
+				}
+			case "cross-instance-reference-rejected":
+				if ni := op.GetIpv4().GetIpv4Entry().GetNextHopGroupNetworkInstance().GetValue(); ni != "" && ni != op.GetNetworkInstance() {
+					m.direct(op.GetId(), spb.AFTResult_FAILED)
 					continue
 				}
 			case "unknown-ni-acked":
@@ -422,6 +507,36 @@ func fault(rep *report.Report, name string, dl time.Time) {
 			continue // only the tests written for the requirement are run against the fault
 		}
 		designated = append(designated, tt.In.ShortName)
+		if strings.Contains(tt.In.ShortName, "random order") {
+			// the test shuffles its operations: it is run under every permutation and must fail under at least
+			// one (under the dependency order a fault on forward references cannot show)
+			perms, bad := 0, 0
+			res := mc.DFS(mc.SchedConfig{Name: "fault-shuffle", Bound: 0, SwitchCost: 1, Deadline: dl, MaxSteps: 5000000, Body: func() {
+				w := newWorld(cfg)
+				rt.Emit("verdict", w.runTest(tt))
+			}, Check: func(x *rt.Exec) []mc.Fail {
+				perms++
+				f := abnormal(x) != ""
+				for _, e := range x.Events {
+					if v, ok := e.Val.(verdict); ok && !v.pass {
+						f = true
+					}
+				}
+				if f {
+					bad++
+				}
+				return nil
+			}})
+			count(rep, res.Execs, res.Steps, true)
+			rep.Set("fault:"+name+"/permutations", map[string]int{"run": perms, "failing": bad})
+			if bad > 0 {
+				failing = append(failing, tt.In.ShortName)
+			} else {
+				missed = append(missed, tt.In.ShortName)
+				rep.Violate("C19/fault-not-flagged/"+name+"/"+tt.In.ShortName, fmt.Sprintf("against a server that %s, the test %q (written for that requirement) passes under every one of its %d permutations", ft.what, tt.In.ShortName, perms), map[string]any{"fault": name, "test": tt.In.ShortName})
+			}
+			continue
+		}
 		vs, _, x := execute(cfg, []*compliance.TestSpec{tt}, nil)
 		count(rep, 1, x.Steps, true)
 		if len(vs) > 0 && vs[0].skipped {
